@@ -1175,3 +1175,76 @@ func orNone(xs []string) []string {
 	}
 	return xs
 }
+
+// checkUniquenessSetsKeepSeeds: name generation keeps "already used" sets
+// (map[string]struct{}) and rejects a candidate found in one. A set can be
+// seeded with names reserved in advance (the type's own name). The rule: every
+// insert into a local set must be observable — no `clear(set)` or re-make of the
+// set variable may run between the insert and the first lookup that the insert
+// dominates. An insert whose entry is always wiped before anything can read it
+// is a reservation that silently stopped working.
+func checkUniquenessSetsKeepSeeds(c *core.Ctx, r *core.Rule, prog *core.Prog, pkgs ...string) {
+	n := 0
+	for _, pp := range pkgs {
+		pkg := prog.ByPath[pp]
+		if pkg == nil {
+			continue
+		}
+		for _, top := range core.PkgFuncs(prog.SSA, pkg) {
+			for _, fn := range core.AllFuncs(top) {
+				for _, call := range core.Calls(fn) {
+					bi, ok := call.Common().Value.(*ssa.Builtin)
+					if !ok || bi.Name() != "clear" {
+						continue
+					}
+					m := call.Common().Args[0]
+					if _, isMap := m.Type().Underlying().(*types.Map); !isMap {
+						continue
+					}
+					n++
+					// inserts into the same map value that dominate the clear and sit outside the loop the clear is in
+					bad := false
+					for _, b := range fn.Blocks {
+						for _, in := range b.Instrs {
+							mu, ok := in.(*ssa.MapUpdate)
+							if !ok || mu.Map != m {
+								continue
+							}
+							if !mu.Block().Dominates(call.Block()) || mu.Block() == call.Block() {
+								continue
+							}
+							// is there a lookup of m reachable from the insert that does not pass the clear first?
+							// sufficient for the report: the clear's block dominates every lookup/range of m
+							allAfter := true
+							for _, b2 := range fn.Blocks {
+								for _, in2 := range b2.Instrs {
+									var reads bool
+									switch x := in2.(type) {
+									case *ssa.Lookup:
+										reads = x.X == m
+									case *ssa.Range:
+										reads = x.X == m
+									}
+									if reads && !call.Block().Dominates(b2) {
+										allAfter = false
+									}
+								}
+							}
+							if allAfter {
+								bad = true
+								r.Fail("seed-wiped:"+fnKeyFull(fn), c.Pos(mu.Pos()), fmt.Sprintf("%s inserts a reserved entry into a set that is cleared (%s) before anything reads it: the reservation (e.g. the type's own name among the names its members must avoid) has no effect", fn.Name(), c.Pos(call.Pos())))
+							}
+						}
+					}
+					if !bad {
+						r.Pass(fmt.Sprintf("%s: clear() wipes no entry inserted ahead of it", fnKeyFull(fn)))
+					}
+				}
+			}
+		}
+	}
+	r.Note("clear() calls on maps examined: %d", n)
+	if n == 0 {
+		r.Pass("no clear() on a map in scope: sets are rebuilt by allocation, seeds included")
+	}
+}
